@@ -67,11 +67,16 @@ type runPlan struct {
 	BodyUs     int
 	Setup      string   // ok | fail | failnow | panic
 	TimedSteps []string // stage names of steps every body (and the setup) times with T.Time; "" is a valid name
+	// Rename: the scenario assigns the exported, writable field T.Scenario of the handles it is given
+	// ("" = never, "setup", "iteration", "both"); the setup / iteration / dropped series are the run's
+	// and keep the registered scenario name. Only drawn for plans without timed steps (T.Time labels
+	// its stage series with the handle's field, which is not part of this check).
+	Rename string
 }
 
 func (p runPlan) String() string {
-	return fmt.Sprintf("{name=%q setup=%s failEvery=%d panicEvery=%d bodyMicros=%d drops=%v timedSteps=%q %s}",
-		p.Name, p.Setup, p.FailEvery, p.PanicEvery, p.BodyUs, p.DropShape, p.TimedSteps, p.Shape.Desc)
+	return fmt.Sprintf("{name=%q setup=%s failEvery=%d panicEvery=%d bodyMicros=%d drops=%v timedSteps=%q rename=%q %s}",
+		p.Name, p.Setup, p.FailEvery, p.PanicEvery, p.BodyUs, p.DropShape, p.TimedSteps, p.Rename, p.Shape.Desc)
 }
 
 func genRunPlan(t *rapid.T, earlier []string) runPlan {
@@ -88,6 +93,9 @@ func genRunPlan(t *rapid.T, earlier []string) runPlan {
 	if rapid.IntRange(0, 2).Draw(t, "timedSteps") == 0 {
 		// steps timed with T.Time export stage series of their own; they are no iterations
 		p.TimedSteps = rapid.SliceOfN(rapid.SampledFrom([]string{"", "", "step", "setup", "Iteration"}), 1, 3).Draw(t, "stepNames")
+	}
+	if rn := rapid.SampledFrom([]string{"", "", "", "", "", "setup", "iteration", "both"}).Draw(t, "rename"); len(p.TimedSteps) == 0 {
+		p.Rename = rn
 	}
 	if p.DropShape {
 		// one worker, bodies of three ticks: every tick after the first finds the worker busy and
@@ -200,6 +208,9 @@ func TestProp_ConsecutiveRuns(t *testing.T) {
 			if o.BodyPass > 0 && o.BodyFail > 0 {
 				add("passing-and-failing-iterations")
 			}
+			if o.Plan.Rename != "" {
+				add("scenario-writes-handle-name")
+			}
 			for _, e := range obs[:i] {
 				if e.Plan.Name == o.Plan.Name {
 					add("scenario-name-reused")
@@ -253,6 +264,9 @@ func prepareRun(dir string, instance *metrics.Metrics, p runPlan) (*prepared, er
 		for _, name := range p.TimedSteps {
 			st.Time(name, func() {})
 		}
+		if p.Rename == "setup" || p.Rename == "both" {
+			st.Scenario = p.Name + "/warm-up"
+		}
 		switch p.Setup {
 		case "fail":
 			st.Fail()
@@ -265,6 +279,9 @@ func prepareRun(dir string, instance *metrics.Metrics, p runPlan) (*prepared, er
 			inFlight.Add(1)
 			defer inFlight.Add(-1)
 			id, _ := strconv.ParseUint(it.Iteration, 10, 64)
+			if p.Rename == "iteration" || p.Rename == "both" {
+				it.Scenario = fmt.Sprintf("%s/tenant-%d", p.Name, id%3)
+			}
 			for _, name := range p.TimedSteps {
 				it.Time(name, func() {})
 			}
